@@ -34,6 +34,7 @@ def common_installation(rng: random.Random):
     cuts = sorted(rng.choice(range(n_z + 1)) for _ in range(n_acs - 1))
     bounds = [0] + cuts + [n_z]
     acs4, acs5 = [], []
+    old_format = rng.random() < 0.35         # an AirTouch 4 console whose ability records carry no group bitmap
     for i in range(n_acs):
         modes = [rng.random() < 0.7 for _ in range(5)]
         fans = [rng.random() < 0.7 for _ in range(7)]
@@ -42,7 +43,7 @@ def common_installation(rng: random.Random):
         name = rng.choice(["Main", "Up", "Küche"])
         rng_z = set(range(bounds[i], bounds[i + 1]))
         acs4.append(console.AcSpec(i, name, modes, fans, (lo, hi), start=bounds[i], count=bounds[i + 1] - bounds[i],
-                                   groups=rng_z if (n_acs > 1 or rng.random() < 0.5) else None))
+                                   groups=None if old_format else rng_z))
         acs5.append(console.AcSpec(i, name, modes, fans + [False], (lo, hi, lo, hi), start=bounds[i], count=bounds[i + 1] - bounds[i]))
     names = {z: rng.choice(["Living", "Bed", "Z%d" % z]) for z in range(n_z)}
     ver = (rng.random() < 0.5, ["1.2.3"])
